@@ -39,8 +39,38 @@ replay = SC.replay_with(judge)
 POOL_RUNS = {'quick': 10, 'thorough': 150}
 
 
+def big_buffer_cases(tier):
+    """Buffers that are large compared with the worker count (what a throughput-tuned loader uses): the bound is the
+    buffer size in EXAMPLES, however the work is packaged. The consumer pauses, so the pipeline runs as far ahead as it
+    will."""
+    out = []
+    for kind, w, b in (('pf', 2, 64), ('pf', 2, 128), ('pf', 3, 100), ('pm', 2, 64), ('lpm', 2, 70), ('pf', 1, 40),
+                       ('stp', 1, 33)):
+        n = 3 * b + 5 if tier == 'quick' else 5 * b + 7
+        for sch in ({'mode': 'list', 'choices': []}, {'mode': 'prng', 'seed': 11, 'spread': 2}):
+            out.append({'kind': kind, 'n': n, 'workers': w, 'buffer': b, 'pauses': [0, 1, b // 2, b + 3], 'sched': sch})
+    return out
+
+
 def run_shard(tier, idx, nshards, rec, known):
     outs = [SC.run_profile('readahead', judge, nontrivial, rec, known, N[tier], seed() * 1000 + idx)]
+    if not outs[0].violation:
+        from ..common import Outcome, Violation
+        o = Outcome()
+        for j, case in enumerate(big_buffer_cases(tier)):
+            if j % nshards != idx:
+                continue
+            tr = E.run_case(case)
+            try:
+                judge(tr)
+            except Violation as v:
+                if known.match(v.sig):
+                    continue
+                o.violation = (case, v.sig, v.detail)
+                break
+            rec.case(SC.summarise(case, tr), nontrivial(case, tr), SC.classes(case, tr) | {'big-buffer'},
+                     size=case['n'])
+        outs.append(o)
     if idx == 0 and not outs[0].violation:
         # part "pools": started - handed <= buffer_size over the append-only marker log of the five real backends
         outs.append(SC.run_pools('readahead', rec, known, POOL_RUNS[tier], seed() * 1000 + 999))
